@@ -169,7 +169,18 @@ class ScriptedContext:
         direction = "s2c" if self.role == "client" else "c2s"
         exp = self._sig(direction, self.seq_in, plain)
         if sig != exp:
-            raise BadMICError(context_msg="scripted context: signature mismatch")
+            # like a GSS mechanism, the context only insists on fresh, in-order per-message tokens if the initiator ASKED for replay and
+            # sequence detection when it created the context (spnego.client(context_req=...)); otherwise an earlier token is accepted again
+            req = getattr(self, "init_args", {}).get("context_req")
+            enforce = True
+            if req is not None:
+                from spnego import ContextReq
+
+                enforce = bool(int(req) & int(ContextReq.replay_detect | ContextReq.sequence_detect))
+            if enforce or not any(sig == self._sig(direction, q, plain) for q in range(self.seq_in)):
+                raise BadMICError(context_msg="scripted context: signature mismatch")
+            self.replays_accepted = getattr(self, "replays_accepted", 0) + 1
+            return IovResult(tuple(ResBuf(ty, d) for ty, d in plain), True)
         self.seq_in += 1
         return IovResult(tuple(ResBuf(ty, d) for ty, d in plain), True)
 
